@@ -199,6 +199,9 @@ def run(ctx, rep):
     r201(ctx, rep, f, ev, cg, reach)
     r202(ctx, rep, f, ev, cg, reach)
     r203(ctx, rep, f, ev, cg, reach)
+    # the chip-count / chip-order checks of a lane read that lane's decoder state: shares R13.2|decoder|fresh-per-lane of C13
+    from . import c13
+    c13.fresh_decoder_per_lane(ctx, rep, f, cg)
 
 
 # ------------------------------------------------------------------ R20.1
